@@ -77,7 +77,7 @@ ISHIFTS = {'lshift': operator.ilshift, 'rshift': operator.irshift}
 
 BITSTRING_KINDS = ['Bits', 'BitArray', 'ConstBitStream', 'BitStream']
 PROMOTABLE = ['str', 'hexstr', 'bytes', 'bytearray', 'memoryview', 'list', 'tuple', 'gen', 'truthy', 'truthy-iter', 'bitarray'] + util.SUBCLASS_KINDS + ['failing-iter']
-BYTE_KINDS = ('bytes', 'bytearray', 'memoryview', 'bytes-sub', 'bytearray-sub', 'memoryview-ro')
+BYTE_KINDS = ('bytes', 'bytearray', 'memoryview', 'bytes-sub', 'bytearray-sub', 'memoryview-ro', 'memoryview-strided', 'memoryview-reversed')
 REFLECTABLE = {'str', 'hexstr', 'bytes', 'bytearray', 'memoryview', 'list', 'tuple', 'gen', 'truthy', 'truthy-iter'} | (set(util.SUBCLASS_KINDS) - {'frozenbitarray'}) | {'failing-iter'}
 ROUTES = ['bin', 'bin', 'slice', 'bytes', 'auto', 'file', 'file-limited', 'frozenbitarray', 'frozenbitarray-kw', 'bitarray-kw',
           'memoryview-ro'] + ['made:' + r for r in ('from-BitArray', 'from-BitStream', 'copy', 'pack', 'bin-assigned', 'uintN-assigned', 'appended-to-empty',
